@@ -174,7 +174,7 @@ func VerifC20_InflightDuringWaitVT() {
 func VerifC20_AsyncDrain() {
 	vsymExpect("checked")
 	v := newVConnection(SelectedState)
-	n := 1 + vsymChoose(2)
+	n := 1 + vsymChoose(4) // 1..4 = the queue capacity the harness gives sendCh
 	fail := vsymBool()
 	if fail {
 		v.tr.writeErr = errors.New("model: write failed")
